@@ -95,7 +95,8 @@ TABLE = {
             ('OpyVerif.Proofs.C18code', 'Opy', None), ('OpyVerif.Proofs.Formulas', 'Opy', r'^d_levy$'),
             ('OpyVerif.Generated.FormulasC18', 'Opy.Gen', None),
             ('OpyVerif.Proofs.SelectProg', 'Opy', None), ('OpyVerif.Generated.Select', 'Opy.Gen', None),
-            ('OpyVerif.Generated.Constants', 'Opy.Gen', r'tournamentSize_pos')],
+            ('OpyVerif.Generated.Constants', 'Opy.Gen', r'tournamentSize_pos'),
+            ('OpyVerif.Generated.Effects', 'Opy.Gen', r'hiddenState_none')],
     'C19': [('OpyVerif.Proofs.C19', 'Opy', None),
             ('OpyVerif.Proofs.C04', 'Opy', r'load_after_save|lookup_loadInto_saved'),
             ('OpyVerif.Proofs.HistCode', 'Opy', r'code_get'), ('OpyVerif.Generated.HistProg', 'Opy.Gen', r'getProg_eq'),
